@@ -117,7 +117,7 @@ CHECKS = {
     'C08': dict(
         level='exploration',
         batches=[dict(scenario='c08dict', flavour='P', quick=16000, thorough=400000), dict(scenario='c08dict', flavour='A', quick=3200, thorough=60000), dict(scenario='c08dict', flavour='T', quick=1200, thorough=20000)],
-        rule='per run: input x parameters x dictionary (raw content of any length incl. <8 bytes, structured via ZDICT_finalizeDictionary, 1/5 with 1-6 bit flips in the entropy header kept only if both loaders accept) x compress supply mode (usingDict, CDict byCopy/byRef, loadDictionary, refCDict, refPrefix; forceAttachDict history on a reused context) x decode supply mode (usingDict, DDict, loadDictionary, refDDict stream, multi-DDict table, refPrefix); every 3rd run a decoder-side store fault (other ID / same ID other content / truncated / bit flip); every 5th run one CDict+DDict shared by two simulated caller threads; distinct = distinct plan signature',
+        rule='per run: input x parameters x dictionary (raw content of any length incl. <8 bytes, structured via ZDICT_finalizeDictionary, 1/5 with 1-6 bit flips in the entropy header kept only if both loaders accept) x compress supply mode (usingDict, CDict byCopy/byRef, loadDictionary, refCDict, refPrefix; forceAttachDict history on a reused context; every 8th run the dictionary - trained, plain, or arbitrary bytes starting with the dictionary magic - is DECLARED raw content through the advanced loaders under each attach preference default/attach/copy/load) x decode supply mode (usingDict, DDict, loadDictionary, refDDict stream, multi-DDict table, refPrefix); every 3rd run a decoder-side store fault (other ID / same ID other content / truncated / bit flip); every 5th run one CDict+DDict shared by two simulated caller threads; distinct = distinct plan signature',
         real=REAL_COMMON, stub=['the decoder-side dictionary store (faults)', 'pthread primitives (shared-dictionary runs, TSan flavour)', 'independent decoder for conformance with dictionaries', 'allocator'],
         assumptions=['supply-mode x level x dictionary-structure matrix is generated workload; the simulated dimensions are the two-party dictionary store and cross-thread sharing', 'same-ID-other-content without checksum: no claim (undetectable by design)'],
     ),
